@@ -162,6 +162,10 @@ func checkInverse(b *sourcebundle.Bundle, root string, label any) error {
 	// paths that do not belong to any package
 	outside := []string{root, root + "/", filepath.Join(root, "terraform-sources.json"), filepath.Join(root, "no-such-package-dir", "x"), filepath.Dir(root),
 		filepath.Join(filepath.Dir(root), "sibling", "x"), root + "-evil/pkgA/main.tf", filepath.Join(root, "..", "bundle-evil", "pkgA"), "/", filepath.Join(root, "../.."), "."}
+	for d := range dirs {
+		// the root's text immediately followed by a package directory's name: a sibling, not a member
+		outside = append(outside, root+filepath.Base(d), root+filepath.Base(d)+"/main.tf", root+filepath.Base(d)+"/modules/a")
+	}
 	for _, p := range outside {
 		if src, err := b.SourceForLocalPath(p); err == nil {
 			// a package directory may legitimately be called like one of these probes
